@@ -6,3 +6,15 @@ open XotModel.Props
 #print axioms C14_gt
 #print axioms C14_gt_no_cdata_end
 #print axioms C14_gt_lexsafe
+#print axioms C14_pretty_content
+#print axioms C14_pretty_content_conv
+#print axioms C14_pretty_string
+#print axioms C14_pretty_where_newline
+#print axioms C14_pretty_where_mixed
+#print axioms C14_pretty_where_entry
+#print axioms C14_pretty_where_frozen
+#print axioms C14_pretty_where_partial
+#print axioms C14_pretty_where_false
+#print axioms C14_doctype_false
+#print axioms C14_pretty_where_tree
+#print axioms C14_pretty_where_tree_mixed
